@@ -18,10 +18,13 @@ def all_gates():
 
 
 class RefCheck:
-    def __init__(self, pid, a, modules, theorems):
+    def __init__(self, pid, a, modules, theorems, translators=()):
         self.pid, self.a = pid, a
         self.v = common.Verdict(pid, a.tier, a.seed)
+        tfailed = common.run_translators(self.v, translators) if translators else []
         self.driver_ok, self.failed = common.lean_obligations(self.v, modules, theorems)
+        self.failed = tfailed + self.failed
+        self.reported_ids = set()
         self.exe = None
         self.gates = all_gates()
         self.evals = 0
@@ -65,6 +68,7 @@ class RefCheck:
             self.evals += 1
             if bad:
                 self.v.known_finding(f["what"])
+                self.reported_ids.add(f["id"])
             elif res and refrun.expected_class(res[0].status) is None:
                 common.log("witness %s: model says %s (not comparable)" % (f["id"], res[0].status))
 
@@ -104,11 +108,17 @@ class RefCheck:
     def finish(self, rule, extra=None, assumptions=()):
         for fid, n in self.cell_known.items():
             f = [x for x in all_findings() if x["id"] == fid]
-            if f:
+            if f and fid not in self.reported_ids:
                 self.v.known_finding(f[0]["what"] + " [%d matrix cells]" % n)
+        # a proof obligation / translator that no longer checks, with no failing input found by the suites
+        if self.failed and self.v.violations == 0:
+            self.v.violation("obligations no longer check: %s; the suites of this run found no input on which the "
+                             "implementation violates the property" % ", ".join(self.failed),
+                             {"failed_obligations": self.failed}, no_input=True)
         cov = {"evaluations": self.evals, "distinct_nontrivial": len(self.nontrivial), "rule": rule,
                "samples": self.samples, "suite_sizes": self.dist, "model_status_histogram": self.status_hist,
-               "discarded_outside_fragment": self.discarded, "gates_closed": sorted(self.gates)}
+               "discarded_outside_fragment": self.discarded, "gates_closed": sorted(self.gates),
+               "known_finding_matrix_cells": dict(self.cell_known)}
         if extra:
             cov.update(extra)
         self.v.coverage.update(cov)
